@@ -778,16 +778,18 @@ impl G {
     fn nospec(&mut self) {
         let m = self.mode;
         // flag mask bits: 1 CF, 2 ZF, 4 SF, 8 OF
-        for (mn, opc_i, opc_c) in [("shld", 0xA4u8, 0xA5u8), ("shrd", 0xAC, 0xAD)] {
+        // shld / shrd (specified in Isa/X86.v; counts above the operand size -- 16-bit operands only -- are
+        // architecturally undefined: X86.step = XUnspec and the oracle is silent there)
+        for (mn, left, opc_i, opc_c) in [("shld", "true", 0xA4u8, 0xA5u8), ("shrd", "false", 0xAC, 0xAD)] {
             for sz in self.wsizes() {
                 for k in 0..2 {
                     let d = if k == 0 { Op::Reg(self.gp()) } else { self.memr() };
                     let s = self.gp_nosp();
-                    for cnt in [0u64, 1, 5, (sz - 1) as u64] {
-                        self.add("nospec-shxd", mn, sz, "(INoSpec 7)".into(), format!("{} {}, {}, 0x{:x}", mn, d.text(sz), regname(s, sz), cnt), vec![d.clone(), Op::Reg(s)],
+                    for cnt in [0u64, 1, 5, (sz - 1) as u64, sz as u64, 17, 31, 33, 0xff] {
+                        self.add("shxd", mn, sz, format!("(IShxd {} {} {} {} (OImm {}))", left, sz, d.coq(), s, cnt), format!("{} {}, {}, 0x{:x}", mn, d.text(sz), regname(s, sz), cnt), vec![d.clone(), Op::Reg(s)],
                             Enc { mode: m, opsz: sz, def64: false, pre: &[], opc: &[0x0F, opc_i], reg: Some(RegF::R(s, false)), rm: Some((&d, false)), plusr: None, imm: imm_bytes(cnt, 1) }, cnt as i64);
                     }
-                    self.add("nospec-shxd", mn, sz, "(INoSpec 7)".into(), format!("{} {}, {}, cl", mn, d.text(sz), regname(s, sz)), vec![d.clone(), Op::Reg(s)],
+                    self.add("shxd", mn, sz, format!("(IShxd {} {} {} {} (OReg 1))", left, sz, d.coq(), s), format!("{} {}, {}, cl", mn, d.text(sz), regname(s, sz)), vec![d.clone(), Op::Reg(s)],
                         Enc { mode: m, opsz: sz, def64: false, pre: &[], opc: &[0x0F, opc_c], reg: Some(RegF::R(s, false)), rm: Some((&d, false)), plusr: None, imm: vec![] }, -1);
                 }
             }
@@ -962,13 +964,10 @@ fn sample(f: &Form, r: &mut Rng) -> Sample {
     let sz = f.sz;
     // ---- class hints (registers)
     match f.class {
-        "shift-cl" | "nospec-shxd" => {
+        "shift-cl" | "shxd" => {
             let rnd = r.below(256);
             let c = *r.pick(&[0u64, 1, 2, (sz as u64).wrapping_sub(1), sz as u64, sz as u64 + 1, 31, 32, 33, 63, 64, 65, 0x80, 0xff, rnd]) & 0xff;
             s.g[1] = (s.g[1] & !0xff) | c;
-            // shld/shrd r/m16 with a masked count above 16: result and flags are undefined (SDM) and there is no
-            // Coq specification to say so: keep such counts out of the samples
-            if f.class == "nospec-shxd" && sz == 16 && (c & 0x1f) > 16 { s.g[1] = (s.g[1] & !0xff) | (c & 0x0f); }
         }
         "string" | "string-rep" => {
             let reg = if m64 && r.chance(1, 4) { HIGH } else { LOW };
